@@ -814,7 +814,11 @@ func (so *SimpleOptimizer) transform(node parser.Node) (parser.Expr, bool) {
 		}
 	case *parser.CallExpr:
 		if node.Func != nil {
-			_, _ = so.transform(node.Func)
+			// a counted rewrite must be kept, otherwise it is repeated in
+			// every pass until the limit is exhausted.
+			if expr, ok = so.transform(node.Func); ok {
+				node.Func = expr
+			}
 		}
 		for i := range node.Args {
 			if expr, ok = so.transform(node.Args[i]); ok {
